@@ -95,11 +95,9 @@ func main() {
 					continue
 				}
 				srcName := srcNames[(runs+skipped)%len(srcNames)]
-				if s.Scen.Dst == "full" {
-					if fi, err := os.Stat("/dev/full"); err != nil || fi.Mode()&os.ModeCharDevice == 0 || size == 0 {
-						skipped++
-						continue
-					}
+				if s.Scen.Dst == "full" && size == 0 {
+					skipped++
+					continue
 				}
 				isOther := s.Scen.Dst == "otherFsMissing" || s.Scen.Dst == "otherFsFile" || s.Scen.Dst == "otherFsSymlinkToSrc"
 				if isOther && !otherOK {
@@ -195,7 +193,27 @@ func main() {
 					D = filepath.Join(d2, "dst.lnk")
 					os.Symlink(S, D)
 				case "full":
-					D = "/dev/full" // opens fine, every write fails with ENOSPC (never renamed onto: copy only)
+					// a private node of the "full" device (1,7) inside the scratch directory: opens fine, every write fails with
+					// ENOSPC - and whatever a copy routine does to the node itself stays in the scratch directory
+					D = filepath.Join(d1, "full.dev")
+					if err := syscall.Mknod(D, syscall.S_IFCHR|0o666, 1<<8|7); err != nil {
+						skipped++
+						os.RemoveAll(d1)
+						continue
+					}
+					if f, err := os.OpenFile(D, os.O_WRONLY, 0); err != nil {
+						skipped++ // device nodes not usable here (nodev mount)
+						os.RemoveAll(d1)
+						continue
+					} else {
+						_, werr := f.Write([]byte("x"))
+						f.Close()
+						if werr == nil {
+							skipped++
+							os.RemoveAll(d1)
+							continue
+						}
+					}
 				case "srcTarget":
 					D = filepath.Join(d1, "real.bin")
 				case "symlinkToSrcTarget":
